@@ -43,6 +43,10 @@
 #include <fcppt/no_init.hpp>
 #include <fcppt/cast/static_cast_fun.hpp>
 #include <fcppt/unique_ptr_impl.hpp>
+#include <fcppt/unique_ptr_to_base.hpp>
+#include <fcppt/unique_ptr_to_const.hpp>
+#include <fcppt/weak_ptr_impl.hpp>
+#include <fcppt/default_deleter.hpp>
 #include <fcppt/array/comparison.hpp>
 #include <fcppt/array/object_impl.hpp>
 #include <fcppt/container/bitfield/comparison.hpp>
@@ -94,6 +98,7 @@
 #include <cstdint>
 #include <functional>
 #include <limits>
+#include <memory>
 #include <sstream>
 #include <optional>
 #include <string>
@@ -1609,19 +1614,29 @@ struct engine
   }
 };
 
+struct wrap_base
+{
+  virtual ~wrap_base() = default;
+  int v{0};
+};
+struct wrap_derived : wrap_base
+{
+};
+
 std::string wrap_line(int x)
 {
+  int const other = x ^ 1;
   int obj = x;
   fcppt::reference<int> const r{obj};
   bool same = &r.get() == &obj && r.operator->() == &obj;
   // writing through the reference changes the object, and the other way round
-  r.get() = x == 5 ? 6 : 5;
-  same = same && obj == (x == 5 ? 6 : 5);
+  r.get() = other;
+  same = same && obj == other;
   obj = x;
   same = same && r.get() == x;
   fcppt::recursive<int> const rec{x};
   fcppt::recursive<int> rec2{rec}; // deep copy: changing the copy leaves the original alone
-  rec2.get() = x == 0 ? 1 : 0;
+  rec2.get() = other;
   fcppt::unique_ptr<int> const up{fcppt::make_unique_ptr<int>(x)};
   fcppt::shared_ptr<int> const sp{fcppt::make_shared_ptr<int>(x)};
   fcppt::shared_ptr<int> const sp2{sp};
@@ -1629,9 +1644,91 @@ std::string wrap_line(int x)
                     up.operator->() == up.get_pointer() && sp.operator->() == sp.get_pointer();
   using st = fcppt::strong_typedef<int, st_tag>;
   using iso = fcppt::type_iso::transform<st>;
-  return "ref=" + std::to_string(r.get()) + " same=" + b01(same && ptrs) + " rec=" + std::to_string(rec.get()) +
-         " uniq=" + std::to_string(*up) + " shared=" + std::to_string(*sp2) +
-         " iso=" + std::to_string(iso::undecorate(iso::decorate(x)));
+  std::string s = "ref=" + std::to_string(r.get()) + " same=" + b01(same && ptrs) + " rec=" + std::to_string(rec.get()) +
+                  " uniq=" + std::to_string(*up) + " shared=" + std::to_string(*sp2) +
+                  " iso=" + std::to_string(iso::undecorate(iso::decorate(x)));
+  // recursive: every constructor and assignment operator (copy / assign / self-assign / move)
+  {
+    s += " reccopy=" + std::to_string(rec2.get()) + "/" + std::to_string(rec.get());
+    fcppt::recursive<int> src{x};
+    fcppt::recursive<int> dst{other};
+    int const *const before = &dst.get();
+    fcppt::recursive<int> &q = (dst = src);
+    src.get() = other; // the source changes afterwards: the target keeps its own object
+    s += " recasg=" + std::to_string(dst.get()) + "/" + std::to_string(src.get()) + (&q == &dst ? "" : "!ref") +
+         (&dst.get() != &src.get() ? "" : "!shared");
+    (void)before;
+    fcppt::recursive<int> &self = dst;
+    int const *const addr = &dst.get();
+    dst = self;
+    s += " recself=" + std::to_string(dst.get()) + (addr == &dst.get() ? "" : "!moved");
+    int const *const cell = &dst.get();
+    fcppt::recursive<int> mv{std::move(dst)};
+    fcppt::recursive<int> mv2{0};
+    mv2 = std::move(mv);
+    s += " recmv=" + std::to_string(mv2.get()) + (cell == &mv2.get() ? "" : "!copied");
+    fcppt::recursive<int> const rv{int{x}}; // rvalue constructor
+    s += " recrv=" + std::to_string(rv.get());
+  }
+  // unique_ptr: move construction / assignment keep the object, release_ownership hands it out
+  {
+    fcppt::unique_ptr<int> a{fcppt::make_unique_ptr<int>(x)};
+    int *const p = a.get_pointer();
+    fcppt::unique_ptr<int> b{std::move(a)};
+    fcppt::unique_ptr<int> c{fcppt::make_unique_ptr<int>(other)};
+    c = std::move(b);
+    bool ok = c.get_pointer() == p && a.get_pointer() == nullptr && b.get_pointer() == nullptr;
+    *c = other;
+    ok = ok && *p == other;
+    *c = x;
+    int *const raw = c.release_ownership();
+    ok = ok && raw == p && c.get_pointer() == nullptr;
+    fcppt::unique_ptr<int> d{raw}; // the pointer constructor takes ownership again
+    fcppt::unique_ptr<int> e{std::make_unique<int>(x)};
+    fcppt::unique_ptr<int const> const f{fcppt::unique_ptr_to_const(std::move(d))};
+    ok = ok && f.get_pointer() == p;
+    fcppt::unique_ptr<wrap_derived> der{fcppt::make_unique_ptr<wrap_derived>()};
+    der->v = x;
+    wrap_derived *const dp = der.get_pointer();
+    fcppt::unique_ptr<wrap_base> const bas{fcppt::unique_ptr_to_base<wrap_base>(std::move(der))};
+    ok = ok && bas.get_pointer() == dp;
+    s += " uniq2=" + std::to_string(*f) + "/" + std::to_string(*e) + "/" + std::to_string(bas->v) + (ok ? "" : "!");
+  }
+  // shared_ptr: the other constructors and assignments, use_count, weak_ptr::lock
+  {
+    int *const raw = new int{x};
+    fcppt::shared_ptr<int> a{raw};
+    bool ok = a.get_pointer() == raw && a.unique() && a.use_count() == 1;
+    fcppt::shared_ptr<int> b{a};
+    ok = ok && a.use_count() == 2 && !a.unique() && b.std_ptr().get() == raw;
+    fcppt::weak_ptr<int> const w{a};
+    ok = ok && w.use_count() == 2 && !w.expired();
+    {
+      auto const locked{w.lock()};
+      ok = ok && locked.has_value() && locked.get_unsafe().get_pointer() == raw && a.use_count() == 3;
+      // (the constructor shared_ptr(weak_ptr const &) does not instantiate: it hands the fcppt::weak_ptr to std::shared_ptr)
+    }
+    fcppt::unique_ptr<int> u{fcppt::make_unique_ptr<int>(x)};
+    int *const up2 = u.get_pointer();
+    fcppt::shared_ptr<int> c{std::move(u)};
+    ok = ok && c.get_pointer() == up2 && u.get_pointer() == nullptr;
+    fcppt::unique_ptr<int> u2{fcppt::make_unique_ptr<int>(x)};
+    int *const up3 = u2.get_pointer();
+    b = std::move(u2); // assignment from a unique_ptr: b lets go of raw
+    ok = ok && b.get_pointer() == up3 && a.use_count() == 1;
+    fcppt::shared_ptr<int> const s1{std::unique_ptr<int, fcppt::default_deleter>{new int{x}}};
+    fcppt::shared_ptr<wrap_derived> const der{fcppt::make_shared_ptr<wrap_derived>()};
+    der->v = x;
+    fcppt::shared_ptr<wrap_base> const bas{der}; // converting constructor
+    ok = ok && bas.get_pointer() == der.get_pointer() && der.use_count() == 2 && bas == der && !(bas != der) && !(bas < der) &&
+         !(der < bas);
+    int const va = *a, vb = *b, vc = *c;
+    a = c; // copy assignment: raw dies, a shows c's object
+    ok = ok && w.expired() && !w.lock().has_value() && a.get_pointer() == up2 && c.use_count() == 2;
+    s += " sh2=" + std::to_string(va) + "/" + std::to_string(vb) + "/" + std::to_string(vc) + "/" + std::to_string(*s1) + "/" +
+         std::to_string(bas->v) + "/" + std::to_string(*a) + (ok ? "" : "!");
+  }
+  return s;
 }
 
 std::string handle(std::vector<std::string> const &t)
